@@ -96,10 +96,12 @@ CHECKS = [
         "array annotations (_apply_annotations_array, _get_validate_parameter_name/_field_name): zero-termination, fixed size, "
         "length parameter as written, the length parameter follows the direction, unknown length name is fatal; emission of "
         "every parameter / return / array attribute by GIRWriter._write_parameter/_write_return_type/_write_type.",
-        "Trusted: givc, schema, Transformer lookups (uninterpreted), _resolve_toplevel, _resolve, Callable.get_parameter and "
-        "_adjust_container_type (the dispatcher in front of the array function) by assumed contract; element-type, "
-        "closure/destroy application (_apply_annotations_param_callback...) not yet under contract; int(str) on canonical "
-        "decimals only.", "DESIGN.md section 4 C01"),
+        "Also under contract: _adjust_container_type (dispatcher), _apply_annotations_element_type (lists, arrays, maps), "
+        "_apply_annotations_param_callback (scope / destroy / closure; invalid on non-callbacks: one warning each, nothing changes) "
+        "and _apply_annotations_param_closure. "
+        "Trusted: givc, schema, Transformer lookups (uninterpreted), _resolve_toplevel, _resolve (type strings; `resolved_from` "
+        "ghost), Callable.get_parameter and _check_array_element_type by assumed contract; int(str) on canonical decimals only.",
+        "DESIGN.md section 4 C01"),
     chk("C11", "Counting half: MessageLogger.log and every module-level logging entry point increment the diagnostic counter "
         "exactly once on every exit (suppressed, printed, SystemExit for fatal). Parser half, annotation level: "
         "_parse_annotations / _parse_annotation / the option parsers / _parse_fields raise nothing on any text, a malformed "
